@@ -32,7 +32,9 @@ RULE = (
     "cache_only optimizer never increases; cache_only never runs a trial; "
     "under hash 'a' a query is served without search iff an entry with the "
     "same fingerprint (equal up to label order inside tensors/output) "
-    "exists. Non-trivial = >=1 cache hit and >=2 distinct queries. Distinct "
+    "exists. One case in sixteen: ReusableHyperCompressedOptimizer(chi), where the "
+    "repeated query must report path, default chi, score, max_size and peak of the "
+    "stored tree. Non-trivial = >=1 cache hit and >=2 distinct queries. Distinct "
     "= sha1(spec)."
 )
 ASSUMPTIONS = [
